@@ -202,7 +202,7 @@ class Ctx:
                     v["witness"] = inject[sid]
                 if "INCONCLUSIVE" in v["props"]:
                     self.inconclusive += 1
-                if v["event"].get("call") == "CRASH" and "timeout" in v["event"].get("why", "") and not _retry and sid in byid:
+                if v["event"].get("call") == "CRASH" and ("timeout" in v["event"].get("why", "") or "exit -99" in v["event"].get("why", "")) and not _retry and sid in byid:
                     slow.append(sid)          # watchdog expiry: decided by a second run with a five times longer watchdog
                     continue
                 self.verdicts.append(v)
